@@ -36,7 +36,7 @@ def run_case(case, repo):
         for prop in case['props']:
             p = subprocess.run(['/venv/bin/python', os.path.join(VERIF, 'check'), prop, '--repo', tmp, '--no-evidence'],
                                capture_output=True, text=True, timeout=300)
-            out.append((prop, p.returncode, p.stdout[-3000:] + p.stderr[-1000:]))
+            out.append((prop, p.returncode, p.stdout + p.stderr[-1000:]))
         return case, 'RAN', out
     finally:
         shutil.rmtree(tmp, ignore_errors=True)
@@ -63,8 +63,9 @@ def main():
             msgs = []
             for prop, rc, text in out:
                 if case['kind'] == 'mutant':
-                    hit = rc == 1 and (not case.get('rule') or ('VIOLATION     %s' % case['rule']) in text
-                                       or ('VIOLATION     %-7s' % case['rule']) in text)
+                    hit = rc == 1 and (not case.get('rule') or any(
+                        l.startswith('VIOLATION ') and len(l.split()) > 1 and l.split()[1] == case['rule']
+                        for l in text.splitlines()))
                     if not hit:
                         good = False
                         msgs.append('%s exit %d (wanted VIOLATION %s)' % (prop, rc, case.get('rule')))
